@@ -112,12 +112,18 @@ public:
 	}
 
 	HeterEventQueueBase(const HeterEventQueueBase & other)
-		: super(other)
+		:
+			super(other),
+			queueEmptyCounter(0),
+			queueNotifyCounter(0)
 	{
 	}
 
 	HeterEventQueueBase(HeterEventQueueBase && other) noexcept
-		: super(std::move(other))
+		:
+			super(std::move(other)),
+			queueEmptyCounter(0),
+			queueNotifyCounter(0)
 	{
 	}
 
